@@ -19,7 +19,9 @@ PROP = 'C17'
 U = [0, 1, 2, 3]
 RULE = ('exhaustive op sequences (quick: length 3, thorough: length 4) over a fixed alphabet of the 16 operations '
         'with representative arguments on OrderedSet and QuerySet, plus random sequences (length up to 60 quick / '
-        '400 thorough) with arbitrary arguments; a case is non-trivial when the set reached >= 2 elements and a '
+        '400 thorough) with arbitrary arguments; on the pointer level (add / discard / iteration with removal / '
+        'membership) exhaustive sequences of length 4 (quick) / 5 (thorough) and random long sequences of the same '
+        'lengths; a case is non-trivial when the set reached >= 2 elements and a '
         'removing operation hit a present element; distinct = distinct (class, level, op sequence)')
 EXHAUSTIVE = {'quick': True, 'thorough': True}
 ASSUMPTIONS = ['elements are hashable values compared by ==; the universe is small integers',
@@ -77,6 +79,19 @@ def generate(ctx):
                 ops.append([nm] + [r.choice(univ) for _ in range(k)])   # may contain duplicates
         yield {'cls': r.choice(['OrderedSet', 'QuerySet']), 'level': 'abs', 'ops': ops,
                'other': r.choice(['oset', 'list'])}
+    # random LONG sequences on the pointer level: add / discard / iteration with removal / membership
+    rngp = ctx.rng.fork('random-ptr')
+    for i in range(ctx.pick(150, 3000)):
+        r = rngp.fork(i)
+        univ = U if r.random() < 0.3 else big
+        ops = []
+        for _ in range(r.randint(5, maxlen)):
+            nm = r.choice(['add', 'add', 'add', 'discard', 'discard', 'iter-rm', 'in'])
+            if nm in ('add', 'discard'):
+                ops.append([nm, r.choice(univ)])
+            else:
+                ops.append([nm] + [r.choice(univ) for _ in range(r.randint(0, 4))])
+        yield {'cls': r.choice(['OrderedSet', 'QuerySet']), 'level': 'ptr', 'ops': ops}
 
 
 def _first_last(s, cls):
@@ -270,11 +285,9 @@ def run_impl(case):
             fail('first-last', 'first/last give %r for %r' % (fl, items))
         if len(items) >= 2:
             reached2 = True
-        if ptr:
-            obs.append([res, items, rev])
-        else:
-            obs.append([res, items, rev, len(s), fl[0] if fl[0] is not None else Sym('none'),
-                        fl[1] if fl[1] is not None else Sym('none')])
+        # the same observables on both levels (the pointer level reads first / last / len / membership off the pointers)
+        obs.append([res, items, rev, len(s), fl[0] if fl[0] is not None else Sym('none'),
+                    fl[1] if fl[1] is not None else Sym('none')])
     key = '%s/%s/%s' % (case['cls'], case['level'], dumps([[Sym(o[0])] + o[1:] for o in case['ops']]))
     return {'obs': _norm(obs), 'd_fail': fails[:3], 'nontrivial': nontrivial, 'key': key,
             'stats': {'ops': len(case['ops']), 'cases_' + case['level']: 1}}
